@@ -259,13 +259,16 @@ def divfree_velocity(draw, name, faces, amp=None):
             seed = draw(st.integers(0, 2 ** 31 - 1))
             psi = expand(style, seed, shp) * amp
             Aa, Ab = geo.Ad[a], geo.Ad[b]
-            if np.any(Aa == 0):
-                # faces of zero area (axis r=0): psi must not vary along b there
-                idx = [slice(None)] * nd
-                idx[a] = 0
-                first = list(idx)
-                first[b] = slice(0, 1)
-                psi[tuple(idx)] = np.broadcast_to(psi[tuple(first)], psi[tuple(idx)].shape)
+            # planes of zero-area faces (axis r = 0, pole theta = 0): no flux can cross them, so psi must not vary
+            # along the other direction there
+            for ax, other, Ax in ((a, b, Aa), (b, a, Ab)):
+                for end in (0, -1):
+                    if np.all(np.take(Ax, end, axis=ax) == 0):
+                        idx = [slice(None)] * nd
+                        idx[ax] = end
+                        first = list(idx)
+                        first[other] = slice(0, 1)
+                        psi[tuple(idx)] = np.broadcast_to(psi[tuple(first)], psi[tuple(idx)].shape)
             da = np.diff(psi, axis=b)     # lives on a-faces
             db = np.diff(psi, axis=a)     # lives on b-faces
             with np.errstate(all='ignore'):
